@@ -100,6 +100,21 @@ net('shared-net after a register', {'a': 2, 'q': 2, 'bus': ('bidir', 2), 'r': 2,
      ('j', lambda s, W: And2(s, 'j', W['r'], W['a'], W['o']))], ['a'])
 
 
+def _bits_detached(s, W):
+    """a multi-output leaf whose FIRST output was detached again (py4hw.base.disconnectWireFromLogicObject): its later outputs still
+    have readers that must be ordered after it"""
+    from py4hw.base import disconnectWireFromLogicObject
+    leaf = BitsLSBF(s, 'bits', W['a'], [W['b0'], W['b1'], W['b2']])
+    disconnectWireFromLogicObject(W['b0'], leaf)
+    return leaf
+
+
+net('detached first output', {'a': 3, 'b0': 1, 'b1': 1, 'b2': 1, 'r': 1, 'o': 1},
+    [('bits', _bits_detached),
+     ('inv', lambda s, W: Not(s, 'inv', W['b1'], W['r'])),
+     ('and', lambda s, W: And2(s, 'and', W['r'], W['b2'], W['o']))], ['a'])
+
+
 class TracedXor(py4hw.Logic):
     """a stateless gate that also has a clock() hook (statistics only): both propagatable and clockable"""
     def __init__(self, parent, name, a, b, r):
@@ -270,7 +285,7 @@ def fixpoint_conds(s):
             continue
         if isinstance(leaf, (Latch,)) or type(leaf).__name__ == 'AsynchronousMemory':
             continue
-        outs = [p.wire for p in leaf.outPorts]
+        outs = [p.wire for p in leaf.outPorts if p.wire is not None]       # (a detached out port has no wire)
         old = [w.value for w in outs]
         with quiet():
             leaf.propagate()
